@@ -144,6 +144,16 @@ func VerifGenerateLexer(cfg *Config) *VerifResult {
 	return res
 }
 
+// VerifTableArray feeds rows (row i is the row of state i) to the repository's
+// row-sharing table and returns the encoded array.
+func VerifTableArray(rows [][]int32) []int32 {
+	t := newTable[int32]()
+	for i, r := range rows {
+		t.AddRow(i, r)
+	}
+	return t.Array()
+}
+
 func (c *context) verifParseGo(pkgPath string, imp gotypes.Importer) bool {
 	placeholder := renderParserTemplate(&parserTemplateInputs{
 		Placeholder: true,
